@@ -10,17 +10,30 @@ structure Acc where
   get : Nat → Nat
   set : Nat → Nat → Nat
 
+/-- what the translator generated for a class -/
+def genOf (cls : String) : Option ClassGen := Gen.byClass.find? (·.name == cls)
+
 /-- the model of the accessor pair of a row: the one-statement accessor the translator recognised in the current
     source, else the hand-written model -/
-def accOf (k : Cls) (fld : String) : Option Acc :=
-  match Gen.simple.find? (fun a => a.cls == k.name && a.fld == fld) with
+def accOfIn (g : ClassGen) (k : Cls) (fld : String) : Option Acc :=
+  match g.simple.find? (·.fld == fld) with
   | some a => some ⟨a.get k.order k.len, a.set k.order k.len⟩
   | none =>
     match Custom.lookup k.name fld with
     | some c => some ⟨c.get, c.set⟩
     | none => none
 
-def argOf (cls fld : String) : Option ArgInfo := Gen.args.find? (fun a => a.cls == cls && a.fld == fld)
+def accOf (k : Cls) (fld : String) : Option Acc :=
+  match genOf k.name with
+  | some g => accOfIn g k fld
+  | none => none
+
+def argOfIn (g : ClassGen) (fld : String) : Option ArgInfo := g.args.find? (·.fld == fld)
+
+def argOf (cls fld : String) : Option ArgInfo :=
+  match genOf cls with
+  | some g => argOfIn g fld
+  | none => none
 
 /-- `small_uint<n>::small_uint(repr_type val)`: `if (val > max_value) throw value_too_large();` with
     `max_value = 2^n - 1` -/
